@@ -1,0 +1,19 @@
+"""Verification hooks. Everything here is inert unless the environment variable
+REPLICAT_VERIF is set to 1 *and* a controller object has been installed by a test
+harness; `sync` then reports (and may block at) a named point of the execution, and
+`override` lets the harness replace a named tunable (e.g. the read size of snapshot)."""
+import os
+
+ENABLED = os.environ.get('REPLICAT_VERIF') == '1'
+controller = None
+
+
+def sync(label, **fields):
+    if ENABLED and controller is not None:
+        controller.sync(label, fields)
+
+
+def override(name, default):
+    if ENABLED and controller is not None:
+        return controller.override(name, default)
+    return default
